@@ -47,6 +47,35 @@ Fourth wave (domains/w4_c01.py):
   the source's data-shape representatives, adjacent pairs of them and the
   receiver's own descriptors.  The witness is the list of all histories run
   in that interpreter up to the violating one.
+
+Fifth wave (domains/w5_c01.py):
+* how the temperature is presented: python int, numpy float64, 0-d and
+  1-element arrays, python list / tuple, 1-D arrays (2, 3 ascending, 3
+  reversed, strided view), every 2-D shape a x b with a, b <= 3, three 3-D
+  shapes, Fortran order and a transposed view, integer dtype (1-D, 2-D) - up
+  to 25 presentations x the four properties, for every count-2 unit vector,
+  every (1, .) pair and every (1, 2, 0.5) triple of data-shape
+  representatives of every library, the 8 three-descriptor mappings of each
+  built library and the unit vectors of the range libraries.  Expectation:
+  the constituents called with the same object, summed with the counts,
+  element by element and in the same shape;
+* relations between the constituents' ranges: a library of 22 descriptors
+  (every closed interval over 200 / 300 / 400 / 500 K incl. the four single
+  points, and "no range", each with a heat-capacity table inside the interval
+  and with reference values only), made by the constructor and loaded from a
+  YAML file: 22 unit vectors, all 462 ordered pairs, all 165 triples of the
+  table-carrying descriptors in two orders.  Where the ranges have a
+  temperature in common (one point included) the estimate must exist and be
+  the sum on the grid of that intersection; mappings with NO common
+  temperature are tallied and not judged;
+* call histories on ONE estimate object: every sequence of <= 2 calls over
+  {Cp/R, H/RT} x 2 temperatures and {S/R, G/RT} x 2 temperatures x {switch
+  absent, False, True, 1} (20 letters, 420 sequences), each on an estimate
+  object of its own, for (per library) a mapping on a library that never
+  decomposed anything (a request for the element correction fails there) and
+  the descriptors of the first molecule (thorough: first two) of a fixed list
+  that the library decomposes (the request is honoured).  Every call that does not request the correction is judged
+  against the plain sum.  The witness is the call sequence up to that call.
 """
 import json
 import os
@@ -60,6 +89,7 @@ from ..domains import estimates as E
 from ..domains import libs
 from ..domains import w3_c01 as W
 from ..domains import w4_c01 as V
+from ..domains import w5_c01 as X
 
 LEVEL = 'exploration'
 LIBS = libs.LIBS + ['synthetic']
@@ -94,12 +124,35 @@ BOUND = {'quick': 'all unit vectors x 7 counts; all pairs (5 count pairs, both '
                   'histories (48 per child interpreter), each with 7 judged '
                   'bystander estimates after (and, if it existed, before) '
                   'the Update and 2r-1 (+4) judged receiver estimates for r '
-                  'data-shape representatives',
+                  'data-shape representatives. Fifth wave: up to 25 '
+                  'presentations of the temperature (scalar-likes, lists, 1-D, '
+                  'all 2-D shapes up to 3x3, three 3-D shapes, memory layouts, '
+                  'integer dtype) x 4 properties for every count-2 unit '
+                  'vector, (1, .) pair and (1, 2, 0.5) triple of data-shape '
+                  'representatives, the 8 three-descriptor mappings of each '
+                  'of the 27 built libraries and the 22 unit vectors of each '
+                  'range library; range relations: 22 descriptors (10 closed '
+                  'intervals over 4 temperatures incl. 4 single points + no '
+                  'range, x 2 data shapes) x 2 construction routes '
+                  '(constructor, YAML load): 22 units + 462 ordered pairs + '
+                  '330 triples = 814 mappings per route (those without a '
+                  'common temperature - 306 per route - tallied, not judged); '
+                  'call histories on one estimate: 20 + 20^2 = 420 call '
+                  'sequences over a 20-letter alphabet (4 getters x 2 '
+                  'temperatures, S/R and G/RT with the switch absent / False '
+                  '/ True / 1) for 2 estimates per library (one on a library '
+                  'that decomposed nothing, one of a decomposed molecule; the '
+                  'synthetic library, whose scheme decomposes none of the '
+                  'molecules offered, has the first only): 19 in all',
          'thorough': 'additionally all pairs of groups for libraries with <= 80 '
                      'groups (which also widens the switched-off family to '
                      'those pairs); the built-library, synonym, history, '
                      'switched-off and several-libraries families at the '
-                     'same bound as quick'}
+                     'same bound as quick; the temperature presentations '
+                     'also for the mappings added above; range relations as '
+                     'in quick; call histories for a second molecule per '
+                     'library, and additionally with all 1000 sequences of 3 '
+                     'calls over the 10 letters of one temperature'}
 RULE = ('each mapping is estimated on a FRESH library object (no molecule has '
         'been decomposed) and every non-dimensional property is compared with '
         'the harness\'s own sum over the constituents evaluated one by one; '
@@ -117,7 +170,20 @@ RULE = ('each mapping is estimated on a FRESH library object (no molecule has '
         'runs in one child interpreter per source library, its histories one '
         'after the other on one loaded source object; expectations are the '
         'source\'s own correlation objects (taken before the first history) '
-        'and the hand-made ones; every case of it is non-trivial')
+        'and the hand-made ones; every case of it is non-trivial. A '
+        'presentation of the temperature other than one python float is '
+        'non-trivial; it is judged where every constituent, called with the '
+        'same object, answers (shape and every element must equal the '
+        'count-weighted sum) or one reports missing data (the estimate must '
+        'raise what a constituent raises), and only tallied where the '
+        'constituents themselves refuse the presentation. Range-relation '
+        'mappings go through the same comparison as every other mapping; a '
+        'mapping whose ranges have no temperature in common is tallied '
+        'without a verdict. A call history runs on an estimate object of its '
+        'own; the expected sums are taken once, before the first sequence, '
+        'over the library\'s correlation objects; calls that request the '
+        'element correction are executed and tallied, never judged (C07); '
+        'every call of a history is non-trivial')
 ASSUMPTIONS = ['relative tolerance 1e-9 on the sums',
                'temperatures: ends and middle of the common range, reference '
                'temperatures inside it',
@@ -146,7 +212,22 @@ ASSUMPTIONS = ['relative tolerance 1e-9 on the sums',
                'uncertainty basis only the source\'s groups are estimated '
                '(a descriptor outside the basis must fail, C20); the source '
                'object is shared by the 48 histories of its interpreter, '
-               'which is why a witness carries the whole prefix']
+               'which is why a witness carries the whole prefix',
+               'temperature presentations: arrays are filled with grid '
+               'temperatures of the common range; float32 is not enumerated '
+               '(single-precision answers cannot be held to 1e-9); H/RT, S/R '
+               'and G/RT of a tabulated correlation refuse arrays (ValueError '
+               'in the constituent itself), so array shapes are in effect '
+               'judged on Cp/R and on missing-data propagation',
+               'range relations: the statement is silent about a mapping '
+               'whose constituents have no temperature in common (observed: '
+               'Estimate raises AssertionError); such mappings are counted, '
+               'not judged. A correlation the constructor refuses, or a '
+               'library file Load refuses, cannot be put into a library: it '
+               'is left out with a note, without a verdict',
+               'call histories: the library object is shared by the '
+               'sequences of one subject, each sequence has its own estimate '
+               'object; the constituents are not modified between calls']
 MANIFEST = dict(
     technique='exhaustive enumeration of descriptor->count mappings over every '
               'group of every library vs constituent-wise recomputation',
@@ -171,12 +252,27 @@ MANIFEST = dict(
          'whatever happened to other library objects of the process: for 11 '
          'source libraries merged by Update() into receivers built in 4 '
          'ways, bystander libraries built in 4 ways at 3 moments estimate '
-         'exactly, and so does the receiver.',
+         'exactly, and so does the receiver. The sum holds element by '
+         'element and in the constituents\' shape for up to 25 presentations '
+         'of the temperature (numpy scalars, lists, 1-D, every 2-D shape up '
+         'to 3x3, 3-D, Fortran / transposed / strided layouts, integer '
+         'dtype); for every relation between the constituents\' ranges '
+         '(all ordered pairs and 330 triples over 10 closed intervals incl. '
+         'single points and no range, constructor-made and YAML-loaded), in '
+         'particular when the ranges meet in exactly one temperature; and '
+         'for every call on an estimate whatever was called on it before '
+         '(all sequences of <= 2 calls over 4 getters x 2 temperatures x 4 '
+         'states of the element switch).',
     note='Counts come from a 7-value alphabet; mappings larger than three '
          'terms are not enumerated. Histories contain at most two Update() '
          'calls and only additions. A true element switch is not judged '
          '(C07). A process holds one source, and per history one receiver '
-         'with one Update() and one bystander.',
+         'with one Update() and one bystander. Array temperatures are in '
+         'effect judged on Cp/R only (the tabulated constituents refuse '
+         'arrays for H/RT and S/R); mappings whose ranges share no '
+         'temperature are not judged; call histories have at most 2 calls '
+         '(thorough: 3 at one temperature) and the constituents are never '
+         'modified between calls.',
     ref='5/C01')
 
 
@@ -186,6 +282,8 @@ def fresh(name):
         return W.ctor_library(name)
     if name.startswith('w3syn:'):
         return W.synonym_library(name)
+    if name.startswith('w5ranges:'):
+        return X.range_library(name)[0]
     return E.fresh(name)
 
 
@@ -203,7 +301,8 @@ def estimate(lib, mapping, as_group=False):
     return lib.Estimate(d, 'thermochem')
 
 
-def check_mapping(R, name, lib, tag, mapping, as_group, switch=False):
+def check_mapping(R, name, lib, tag, mapping, as_group, switch=False,
+                  shapes=False):
     wit = dict(kind='map', lib=name, mapping=[[str(g), c] for g, c in mapping],
                as_group=as_group)
     r = E.ev(estimate, lib, mapping, as_group)
@@ -256,6 +355,10 @@ def check_mapping(R, name, lib, tag, mapping, as_group, switch=False):
         temps = E.grid_inside(rng, mapping, lib)
         if temps:
             check_switch_off(R, name, e, cons, temps[len(temps) // 2], wit)
+    if shapes:
+        temps = E.grid_inside(rng, mapping, lib)
+        if temps:
+            check_shapes(R, name, e, cons, temps, wit)
     # the estimate must not follow later changes of the caller's own mapping
     d = dict((str(g), c) for g, c in mapping)
     r2 = E.ev(lib.Estimate, d, 'thermochem')
@@ -329,6 +432,77 @@ def check_switch_off(R, name, e, cons, T, wit):
                     R.outcomes['switch-off:sum-ok'] += 1
 
 
+def check_shapes(R, name, e, cons, temps, wit):
+    """Every presentation of the temperature (domains/w5_c01.py) x the four
+    properties.  The expectation is the sum over the constituents, each
+    called with the SAME temperature object: where they all answer (numbers
+    or arrays) the estimate must answer in the same shape with the
+    count-weighted sum element by element; where one of them reports missing
+    data the estimate must raise what a constituent raises (the rule of the
+    scalar family).  Where the constituents refuse the presentation itself
+    (a python list; an array for H/RT, S/R) there is no 'correlation value
+    at that temperature' and nothing is demanded."""
+    import numpy as np
+    for label, T in X.temperature_presentations(temps):
+        for prop in E.PROPS:
+            R.evals += 1
+            R.nontrivial += 1
+            parts = [E.ev(getattr(k, prop), T) for k, _ in cons]
+            got = E.ev(getattr(e, prop), T)
+            how = '%s(%s: %s)' % (prop, label, X.describe_T(T))
+            w = dict(wit, T_presentation=label)
+            exs = set(p[1] for p in parts if p[0] == 'exc')
+            if exs:
+                if 'IncompleteDataError' not in exs:
+                    R.outcomes['shape:constituents-refuse:%s' % sorted(exs)[0]] += 1
+                elif got[0] == 'exc' and got[1] in exs:
+                    R.outcomes['shape:propagates:' + got[1]] += 1
+                else:
+                    R.outcomes['shape:partial-sum'] += 1
+                    R.violation('shape-partial-sum:%s' % prop,
+                                '[%s] %s of %r: a constituent raises %s but '
+                                'the estimate gave %r' % (
+                                    name, how, wit['mapping'], sorted(exs),
+                                    got[:2]), w)
+                continue
+            try:
+                want = np.asarray(sum(c * np.asarray(p[1], dtype=float)
+                                      for (k, c), p in zip(cons, parts)),
+                                  dtype=float)
+            except Exception:       # noqa
+                R.outcomes['shape:constituents-not-numeric'] += 1
+                continue
+            if not np.all(np.isfinite(want)):
+                R.outcomes['shape:constituents-not-finite'] += 1
+                continue
+            if got[0] != 'ok':
+                R.outcomes['shape:raises'] += 1
+                R.violation('shape-raises:%s:%s' % (prop, got[1]),
+                            '[%s] %s of %r raised %s; every constituent '
+                            'answers, their sum is %r' % (
+                                name, how, wit['mapping'], got[1],
+                                want.tolist()), w)
+                continue
+            try:
+                g = np.asarray(got[1])
+                bad = g.dtype.kind not in 'fiu'
+                g = g.astype(float)
+            except Exception:       # noqa
+                bad = True
+            if bad or g.shape != want.shape or not np.all(np.isfinite(g)) or \
+                    np.any(np.abs(g - want) > 1e-9 * np.maximum(1.0, np.abs(want))):
+                R.outcomes['shape:wrong-sum'] += 1
+                R.violation('shape-wrong-sum:%s' % prop,
+                            '[%s] %s of %r = %r; sum over the constituents '
+                            'called with the same temperatures = %r' % (
+                                name, how, wit['mapping'],
+                                got[1].tolist() if hasattr(got[1], 'tolist')
+                                else got[1], want.tolist()), w)
+            else:
+                R.outcomes['shape:sum-ok:%d-D' % want.ndim] += 1
+
+
+X_RANGE_SLICES = 3
 MISSING = ['Q(Z)9', 'C(H)3(O)', 'Q(Z)(Y)2(Z)']   # unknown, named without data, non-canonical unknown
 
 
@@ -379,7 +553,9 @@ def run_lib(R, name, i, n, tier):
             continue
         varied = (tag == 'unit' and mapping[0][1] == 2) or \
             (tag == 'pair' and mapping[0][1] == 1)
-        check_mapping(R, name, lib, tag, mapping, as_group=False, switch=varied)
+        shaped = varied or (tag == 'triple' and mapping[0][1] == 1)
+        check_mapping(R, name, lib, tag, mapping, as_group=False, switch=varied,
+                      shapes=shaped)
         if tag != 'unit' or mapping[0][1] == 1:
             check_mapping(R, name, lib, tag, mapping, as_group=True)
         if varied:
@@ -395,7 +571,8 @@ def run_ctor(R, i, n):
         lib = W.ctor_library(name)
         for tag, mapping in W.ctor_mappings(lib):
             check_mapping(R, name, lib, tag, mapping, as_group=False,
-                          switch=(tag == 'built-triple'))
+                          switch=(tag == 'built-triple'),
+                          shapes=(tag == 'built-triple'))
             if tag != 'built-unit' or mapping[0][1] == 1:
                 check_mapping(R, name, lib, tag, mapping, as_group=True)
 
@@ -728,6 +905,127 @@ def run_process_isolated(R, source):
     R.notes.extend(pack['notes'][:3])
 
 
+# ------------------------------------------- fifth wave: ranges, call histories
+
+def run_ranges(R, name, i, n):
+    """The interval-relation library (domains/w5_c01.py) built by `name`'s
+    route; mappings k with k % n == i."""
+    lib, names, notes = X.range_library(name)
+    if i == 0:
+        R.notes.extend(notes[:4])
+        R.sample(dict(library=name, descriptors=names), limit=1)
+    for k, (tag, mapping) in enumerate(X.range_mappings(names)):
+        if k % n != i:
+            continue
+        rng = E.common_range(lib, mapping)
+        if rng is not None and rng[0] > rng[1]:
+            # no temperature lies in every constituent's range: the statement
+            # quantifies over an empty set and does not say whether such an
+            # estimate can be made at all.  Tallied, never judged.
+            R.evals += 1
+            r = E.ev(estimate, lib, mapping)
+            R.outcomes['ranges:empty-common-range:%s' % (
+                'estimate-returned' if r[0] == 'ok' else 'Estimate-raises-' + r[1])] += 1
+            continue
+        if rng is None:
+            R.outcomes['ranges:relation:no-range'] += 1
+        elif rng[0] == rng[1]:
+            R.outcomes['ranges:relation:single-point'] += 1
+        else:
+            R.outcomes['ranges:relation:proper-interval'] += 1
+        check_mapping(R, name, lib, tag, mapping, as_group=False,
+                      shapes=(tag == 'range-unit'))
+
+
+def run_call_subject(R, name, subject, seqs):
+    """Call sequences on estimates of ONE mapping of library `name`; every
+    sequence gets an estimate object of its own (made by the same library
+    object), every call in it that does not request the element correction
+    is judged against the plain sum over the constituents (evaluated once,
+    before the first sequence, on the library's own correlation objects)."""
+    kind, what = subject
+    lib = W.private_load(name)      # nobody else in this process holds it
+    if kind == 'mol':
+        d = dict(lib.GetDescriptors(what))
+    else:
+        d = dict((g, c) for g, c in what)
+    items = [(str(g), c) for g, c in d.items()]
+    cons = [(lib[g]['thermochem'], c) for g, c in d.items()]
+    rng = E.common_range(lib, list(d.items()))
+    grid = E.grid_inside(rng, list(d.items()), lib)
+    if not grid:
+        R.outcomes['calls:no-temperature-in-range'] += 1
+        return
+    temps = [grid[0], grid[len(grid) // 2]]
+    want = {}
+    for ti, T in enumerate(temps):
+        for prop in E.PROPS:
+            parts = [E.ev(getattr(k, prop), T) for k, _ in cons]
+            exs = set(p[1] for p in parts if p[0] == 'exc')
+            want[prop, ti] = (exs, None if exs else
+                              sum(c * p[1] for (k, c), p in zip(cons, parts)))
+    n = 0
+    for seq in seqs:
+        n += 1
+        r = E.ev(lib.Estimate, dict(d), 'thermochem')
+        if r[0] != 'ok':
+            R.evals += 1
+            R.nontrivial += 1
+            R.outcomes['calls:estimate-raises:' + r[1]] += 1
+            R.violation('calls-estimate-raises:%s' % r[1],
+                        '[%s] Estimate(%r) raised %s' % (name, items, r[1]),
+                        dict(kind='calls', lib=name, subject=[kind, what],
+                             calls=[]))
+            return
+        e = r[1]
+        for k, (prop, ti, sw) in enumerate(seq):
+            R.evals += 1
+            R.nontrivial += 1
+            T = temps[ti]
+            got = E.ev(X.do_call, e, prop, T, sw)
+            if sw in ('on', 'on-int'):
+                # what a TRUE switch subtracts is C07's property
+                R.outcomes['calls:correction-requested:%s' % (
+                    'answered' if got[0] == 'ok' else got[1])] += 1
+                continue
+            wit = dict(kind='calls', lib=name, subject=[kind, what],
+                       calls=[list(c) for c in seq[:k + 1]])
+            ctx = '[%s] estimate of %r (%s), call %d of %r: %s(%g%s)' % (
+                name, items, 'library never decomposed anything' if kind ==
+                'fresh' else 'descriptors of %s' % what, k + 1, wit['calls'],
+                prop, T, '' if sw == 'absent' else ', S_elements=False')
+            exs, w = want[prop, ti]
+            if exs:
+                if got[0] == 'exc' and got[1] in exs:
+                    R.outcomes['calls:propagates:' + got[1]] += 1
+                else:
+                    R.outcomes['calls:partial-sum'] += 1
+                    R.violation('calls-partial-sum:%s' % prop,
+                                '%s: a constituent raises %s but the estimate '
+                                'gave %r' % (ctx, sorted(exs), got[:2]), wit)
+            elif got[0] != 'ok':
+                R.outcomes['calls:raises'] += 1
+                R.violation('calls-raises:%s:%s' % (prop, got[1]),
+                            '%s raised %s; constituents give %r'
+                            % (ctx, got[1], w), wit)
+            elif not E.is_plain_finite(got[1]) or \
+                    abs(float(got[1]) - w) > 1e-9 * max(1.0, abs(w)):
+                R.outcomes['calls:wrong-sum'] += 1
+                R.violation('calls-wrong-sum:%s' % prop,
+                            '%s = %r, sum over constituents = %r'
+                            % (ctx, got[1], w), wit)
+            else:
+                R.outcomes['calls:sum-ok'] += 1
+    R.sample(dict(library=name, subject=[kind, what], temperatures=temps,
+                  call_sequences=n), limit=3)
+
+
+def run_calls(R, name, tier):
+    subjects = X.call_subjects(W.private_load(name), tier)
+    for subject in subjects:
+        run_call_subject(R, name, subject, X.call_sequences(tier))
+
+
 def shards(tier, seed):
     out = []
     for name in LIBS:
@@ -747,6 +1045,12 @@ def shards(tier, seed):
     # tiers); one child interpreter per source library
     for name in LIBS + [W.HIST_CTOR_BASE]:
         out.append(('w4-process', name))
+    # fifth wave (same in both tiers, thorough with longer call sequences)
+    for name in X.RANGE_LIBS:
+        for i in range(X_RANGE_SLICES):
+            out.append(('w5-ranges', name, i, X_RANGE_SLICES))
+    for name in LIBS:
+        out.append(('w5-calls', name))
     return out
 
 
@@ -760,6 +1064,10 @@ def run_shard(shard, tier):
         run_histories(R, shard[1], 'loaded', None)
     elif shard[0] == 'w4-process':
         run_process_isolated(R, shard[1])
+    elif shard[0] == 'w5-ranges':
+        run_ranges(R, shard[1], shard[2], shard[3])
+    elif shard[0] == 'w5-calls':
+        run_calls(R, shard[1], tier)
     else:
         run_lib(R, shard[0], shard[1], shard[2], tier)
     return R
@@ -769,6 +1077,11 @@ def replay(w):
     R = Result()
     if w['kind'] == 'hist':
         run_history(R, w['lib'], w['build'], w['keys'], w['steps'])
+        return dict(violates=bool(R.violations),
+                    detail='\n'.join(v['msg'] for v in R.violations) or 'holds')
+    if w['kind'] == 'calls':
+        run_call_subject(R, w['lib'], tuple(w['subject']),
+                         [[tuple(c) for c in w['calls']]])
         return dict(violates=bool(R.violations),
                     detail='\n'.join(v['msg'] for v in R.violations) or 'holds')
     if w['kind'] == 'process':
@@ -781,7 +1094,7 @@ def replay(w):
         groups = {str(g): g for g in lib}
         mapping = [(groups.get(g, g), c) for g, c in w['mapping']]
         check_mapping(R, w['lib'], lib, 'replay', mapping, w['as_group'],
-                      switch=True)
+                      switch=True, shapes=True)
     else:
         r = E.ev(lib.Estimate, dict((a, b) for a, b in w['items']), 'thermochem')
         ex = [a for a, b in w['items'] if a in MISSING]
